@@ -28,7 +28,7 @@ SAFE_MODULE_ATTRS = {
     "itertools": {"permutations": itertools.permutations, "product": itertools.product},
 }
 SAFE_METHODS = {"join", "upper", "lower", "items", "keys", "values", "add", "update", "append", "format", "strip",
-                "startswith", "endswith", "replace", "split", "get", "find", "rfind", "index", "isalpha", "isascii", "splitlines"}
+                "startswith", "endswith", "replace", "split", "get", "find", "rfind", "index", "isalpha", "isascii", "splitlines", "isupper", "islower", "rstrip", "lstrip"}
 ALLOWED_NODES = (
     ast.Constant, ast.Name, ast.Load, ast.Store, ast.BinOp, ast.Add, ast.Mult, ast.Mod, ast.JoinedStr, ast.FormattedValue,
     ast.Call, ast.keyword, ast.Starred, ast.Set, ast.Dict, ast.List, ast.Tuple, ast.ListComp, ast.SetComp, ast.DictComp,
